@@ -119,7 +119,9 @@ GRV_CMD(tags) {
         const char *txt = "abc \xE1\x80\x80\xE1\x80\xB1 test";
         for (gr_uint32 sc : scripts) {
             set_case("tags script 0x%08X font=%s", sc, argv[i]);
+            GRV_WATCHDOG;
             gr_segment *s1 = gr_make_seg(0, face, sc, 0, gr_utf8, txt, strlen(txt), 0);
+            GRV_WATCHDOG;
             gr_segment *s2 = gr_make_seg(0, face, spacepad(sc), 0, gr_utf8, txt, strlen(txt), 0);
             if (dump(project(s1, face, 0, true)) != dump(project(s2, face, 0, true))) { vj::W w; w.i("script", sc).str("font", argv[i]); report_fail("C20", "space-padded and zero-padded script tags give different segments", w.done()); }
             if (s1) gr_seg_destroy(s1);
